@@ -107,13 +107,12 @@ Theorem loop_update_positive (H : ham) fuel sl st :
 Proof.
   intros Hnn Hpos. unfold loop_update.
   destruct (Nat.eqb (count_ops sl) 0); [now apply mass_bad_good|].
+  destruct (Nat.eqb (length (var_slots sl)) 0); [now apply mass_bad_good|].
   rewrite mass_unif. apply Qsum_all_zero. intros i _.
-  destruct (get_op sl (nth (N.to_nat (N.of_nat i) mod count_ops sl) (occupied sl) 0%nat)) as [o|];
+  match goal with |- context [get_op sl ?p] => destruct (get_op sl p) as [o|] end;
     [|rewrite mass_bad_none; ring].
-  destruct (Nat.eqb (length (o_vars o)) 0); [rewrite mass_bad_good by exact Hpos; ring|].
-  rewrite mass_unif.
-  rewrite (Qsum_all_zero _ (seq 0 (length (o_vars o)))); [ring|].
-  intros v _. rewrite mass_bit.
+  match goal with |- context [Nat.ltb ?a ?b] => destruct (Nat.ltb a b) end; [|rewrite mass_bad_none; ring].
+  rewrite mass_bit.
   rewrite !(loop_steps_positive H Hnn) by exact Hpos. ring.
 Qed.
 
